@@ -410,7 +410,10 @@ pub fn structural_mutants(rec: &Rec, r: &mut impl RngCore) -> Vec<(&'static str,
             let mut c = r2.clone();
             let canon = match (cls, &val) {
                 ("port-leading-zero", Item::S(b)) => {
-                    let nz: Vec<u8> = b.iter().copied().skip_while(|&x| x == 0).collect();
+                    // (plain slicing: the iterator form of this line draws a stack-use-after-scope false positive
+                    // from ASan in safe std code)
+                    let first = b.iter().position(|&x| x != 0).unwrap_or(b.len());
+                    let nz: Vec<u8> = b[first..].to_vec();
                     Some(Item::S(nz))
                 }
                 ("port-noncanonical", Item::R(b)) if b[0] == 0x81 => Some(Item::S(vec![b[1]])),
